@@ -606,11 +606,15 @@ namespace c07
     // RGCR only: number of search directions the object holds from earlier solves, modelled from the iteration counts
     // (each apply/correct keeps a quarter of its list, rgcr.hpp:150/169; done_numeric / done_symbolic clear it)
     Index rg_stored = 0; Index effdim0 = 0; for(char fx : p0.s.fixed) effdim0 += fx ? 0 : 1;
+    // did an earlier solve on this object drive the recurrences to where recycled directions degenerate (known finding D8:
+    // near convergence at rounding level, stagnation / abort, or at least as many iterations as the effective dimension)?
+    bool rg_deep = false;
+    auto note_deep = [&](const RunRec& rr) { if(rr.iters >= effdim0 || (rr.st != Status::success && rr.st != Status::max_iter) || !(rr.dfin > 1e-9 * rr.d0)) rg_deep = true; };
     for(int run = 0; run < nruns; ++run)
     {
       if(do_update && run == 1)
       {
-        is.done_numeric(); rg_stored = 0;
+        is.done_numeric(); rg_stored = 0; rg_deep = false;
         // CG-type solvers stay SPD; the others switch symmetry class where the layout allows it
         p_upd = regen_on_layout(r, p0, si.spd_only ? true : !p0.spd);
         c08::write_values(local_matrix, p_upd.s);
@@ -653,9 +657,13 @@ namespace c07
       rc.rtags.push_back(use_correct ? "call:correct" : "call:apply");
       rc.rtags.push_back("max_iter:" + std::string(set.max_iter == 0 ? "0" : (set.max_iter == 1 ? "1" : ">1")));
       if(bscale == 0.0) rc.rtags.push_back("def0:zero");
-      else if(bscale < set.tol_abs_low) rc.rtags.push_back("def0:below_tol_abs_low");
+      // (an exactly vanishing true defect is computed as O(eps) by FEAT: it is below tol_abs_low as well whenever that is set)
+      if(bscale < set.tol_abs_low) rc.rtags.push_back("def0:below_tol_abs_low");
+      // tiny systems: the Krylov space is exhausted after effdim steps -- the regime of the unguarded lucky breakdown (D7)
+      if(effdim0 <= 8) rc.rtags.push_back("tiny:effdim<=8");
       if(si.recycles && run > 0) rc.rtags.push_back("recycled");
       if(si.recycles && rg_stored > 0) rc.rtags.push_back(rg_stored >= effdim0 ? "rgcr:stored_dirs>=dim" : "rgcr:stored_dirs>0");
+      if(si.recycles && rg_stored > 0 && rg_deep) rc.rtags.push_back("rgcr:earlier_solve_deep");
       if(updated) rc.rtags.push_back("history:value_update+init_numeric");
       if(set.min_iter > 0) rc.rtags.push_back("min_iter>0");
       if(set.min_iter == set.max_iter) rc.rtags.push_back("min_iter==max_iter");
@@ -673,13 +681,14 @@ namespace c07
       c.event();
       if(si.recycles)
       {
-        rg_stored = std::max(rg_stored, r1.iters) / 4;
+        rg_stored = std::max(rg_stored, r1.iters) / 4; note_deep(r1);
         RunCtx rc2 = rc; rc2.phase += "-repeat";
         if(std::find(rc2.rtags.begin(), rc2.rtags.end(), "recycled") == rc2.rtags.end()) rc2.rtags.push_back("recycled");
         if(rg_stored > 0 && std::find_if(rc2.rtags.begin(), rc2.rtags.end(), [](const std::string& t) { return t.rfind("rgcr:stored_dirs", 0) == 0; }) == rc2.rtags.end())
           rc2.rtags.push_back(rg_stored >= effdim0 ? "rgcr:stored_dirs>=dim" : "rgcr:stored_dirs>0");
+        if(rg_stored > 0 && rg_deep && std::find(rc2.rtags.begin(), rc2.rtags.end(), "rgcr:earlier_solve_deep") == rc2.rtags.end()) rc2.rtags.push_back("rgcr:earlier_solve_deep");
         judge(c, rc2, r2);
-        rg_stored = std::max(rg_stored, r2.iters) / 4;
+        rg_stored = std::max(rg_stored, r2.iters) / 4; note_deep(r2);
       }
       else if(r1.st != r2.st || r1.iters != r2.iters || !bits_equal(r1.x, r2.x) || !same_bits(r1.dfin, r2.dfin) || !same_bits(r1.d0, r2.d0))
       {
@@ -731,9 +740,9 @@ namespace c07
       if(run + 1 < nruns)
       {
         const int life = int(r.below(5));
-        if(life == 1) { is.done_numeric(); is.init_numeric(); c.tag("life:renumeric"); rg_stored = 0; }
-        else if(life == 2) { is.done(); is.init(); c.tag("life:reinit"); resym = true; rg_stored = 0; }
-        else if(life == 3) { is.done_numeric(); is.done_symbolic(); is.init_symbolic(); is.init_numeric(); c.tag("life:resymbolic"); resym = true; rg_stored = 0; }
+        if(life == 1) { is.done_numeric(); is.init_numeric(); c.tag("life:renumeric"); rg_stored = 0; rg_deep = false; }
+        else if(life == 2) { is.done(); is.init(); c.tag("life:reinit"); resym = true; rg_stored = 0; rg_deep = false; }
+        else if(life == 3) { is.done_numeric(); is.done_symbolic(); is.init_symbolic(); is.init_numeric(); c.tag("life:resymbolic"); resym = true; rg_stored = 0; rg_deep = false; }
       }
     }
     is.done_numeric(); is.done_symbolic();
